@@ -118,6 +118,14 @@ def _run_config(prop, cfg, tag, simulate=None):
         seen_h.add((pred, key))
         pre = expect[key[:-1]][2] if len(key) > 1 and key[:-1] in expect else None
         outs_h = expect[key][0]
+        # did an earlier call of this history fail after a partial mutation?  Then the state is no
+        # longer the effect of the recorded calls (reported under C09.FailUnchanged) and the copy /
+        # round-trip relations are consequences of that, not separate defects.
+        detail = dict(detail)
+        detail["after_partial_failure"] = any(
+            key[:n] in expect and "C09.FailUnchanged" in expect[key[:n]][3] for n in range(2, len(key) + 1))
+        if detail["after_partial_failure"] and pred.startswith(("C04.", "C18.")):
+            continue
         if "template_out" in detail:
             outs_h = tuple(outs_h[:-1]) + (detail["template_out"],)
         cands.append((pred, key, outs_h, "hook", pre, detail))
@@ -193,6 +201,7 @@ def decide(prop, preds, runs, tier, t0, level_note=""):
     for e, n in kf.values():
         print(f"KNOWN-FINDING: property={prop} {e['id']}: {e['description']} ({n} occurrences)")
     rc = 0
+    shutil.rmtree(os.path.join(WORK, prop, "replay"), ignore_errors=True)
     if viol:
         rc = 1
         os.makedirs(os.path.join(WORK, prop, "replay"), exist_ok=True)
